@@ -1,0 +1,62 @@
+//! Verification seam (cargo feature `verif_hooks`, off by default).
+//!
+//! Every lexer / parser / evaluator step of the five `eval_*` stacks calls
+//! [`tick`] with the [`Site`] it is at. With no hook installed on the calling
+//! thread a tick is one thread-local load and a branch. A harness installs a
+//! per-thread hook with [`set_thread_hook`] and uses the ticks as scheduling
+//! points, as a virtual clock, or as a step counter.
+//!
+//! The seam holds no borrow while the hook runs, so a hook may park the
+//! thread or unwind.
+
+use std::cell::Cell;
+
+/// Where in a call a tick comes from.
+#[repr(u8)]
+#[derive(Clone, Copy, Debug, PartialEq, Eq, PartialOrd, Ord, Hash)]
+pub enum Site {
+    /// first statement of `eval_X`
+    ApiEnter = 0,
+    /// `eval_X`: after `Parser::new(..)?`
+    ApiLexed = 1,
+    /// `eval_X`: after `parse()?`
+    ApiParsed = 2,
+    /// first statement of `Tokenizer::next`
+    TokNext = 3,
+    /// body of a digit-run loop in `Tokenizer::next`
+    TokScan = 4,
+    /// body of the loop in `utils::deserialize_superscript_number`
+    SupScan = 5,
+    /// first statement of `Parser::get_next_token`
+    ParseNext = 6,
+    /// first statement of `Parser::parse_number`
+    ParseAtom = 7,
+    /// body of the precedence-climbing loop in `Parser::generate_ast`
+    ParseClimb = 8,
+    /// body of an argument-list loop in the parser
+    ParseArgs = 9,
+    /// entry of `ast::eval`
+    EvalEnter = 10,
+    /// body of a loop in `ast.rs` (factorial, Lambert W, ilog, gcd, aggregates)
+    EvalLoop = 11,
+}
+
+/// Number of [`Site`] variants.
+pub const SITE_COUNT: usize = 12;
+
+thread_local! {
+    static HOOK: Cell<Option<fn(Site)>> = const { Cell::new(None) };
+}
+
+/// Install (or with `None` remove) the calling thread's hook; returns the previous one.
+pub fn set_thread_hook(hook: Option<fn(Site)>) -> Option<fn(Site)> {
+    HOOK.try_with(|h| h.replace(hook)).ok().flatten()
+}
+
+#[inline]
+#[allow(dead_code)]
+pub(crate) fn tick(site: Site) {
+    if let Some(hook) = HOOK.try_with(|h| h.get()).ok().flatten() {
+        hook(site);
+    }
+}
